@@ -370,7 +370,9 @@ def drv_uncert(tier, nmodels, log):
                 q = np.concatenate([p0, [theta]])
             else:
                 q = p0.copy()
-            neg = log and bool(np.any(np.log(q) * EPS[1] <= -1e-6))   # log-parameters < 0 take the one-sided branch (pval*eps < 1e-6 without abs)
+            # (before fix 2840e27 a negative log-parameter took the one-sided branch because the step rule lacked abs(); the rule is now
+            #  |x*eps| < 1e-6, which `doc_one_sided` below covers, so there is no separate class for negative parameters any more)
+            neg = False
             H = lin.hess(q, d, multinom, log)
             with np.errstate(invalid='ignore'):
                 wantF = np.sqrt(np.diag(np.linalg.inv(H)))
@@ -385,7 +387,7 @@ def drv_uncert(tier, nmodels, log):
             m_q = lin._m(q, multinom)[0]
             ll_mag = float(np.sum(m_q + np.abs(d * np.log(m_q)) + np.abs(gammaln(d + 1))))
             x = np.log(q) if log else q
-            hmin = min(e if xv * e < 1e-6 else e * xv for xv in x for e in EPS)
+            hmin = min(e if abs(xv * e) < 1e-6 else e * abs(xv) for xv in x for e in EPS)      # the step actually taken: eps*|x| (or eps when that is < 1e-6)
             # documented branch: 0 <= x*eps < 1e-6 -> absolute step eps, one-sided stencil, first-order accurate by design
             doc_one_sided = any(abs(xv * e) < 1e-6 for xv in x for e in EPS)
             ro = 4096 * 2.0 ** -53 * ll_mag / (hmin ** 2 * float(np.max(np.abs(H))))
